@@ -26,7 +26,7 @@ PLAN = dict(
                     "(and, now inside the guard, simulated by the theorem), and SEMANTIC PRESERVATION for all term forms incl. codata "
                     "(C02_fun2core_correct_fragment2: step-indexed forward simulation CEK vs Core machine; any number of definitions, calls, "
                     "recursion, shared continuations, data/case, labels/goto, new/destructors/by-name bindings; guard: scope check + kind discipline, "
-                    "NO capture guard since fix d5d4151 - shadowing binders are allowed; excluded: calls of main, destructor calls whose scrutinee and arguments both need evaluation); inputs inside "
+                    "NO capture guard since fix d5d4151 - shadowing binders are allowed; calls of main INCLUDED since fix f929eb7 (the entry point is simulated; C02_call_main_witness_simulated, C02_islf_main_called_witness_simulated); excluded: destructor calls whose scrutinee and arguments both need evaluation; the oldest theorem C02_fun2core_correct_partial keeps the hypothesis that no definition calls main); inputs inside "
                     "the theorem's hypotheses carry the tag proved-fragment2 (others out-frag/out-kind/out-scope); outside them preservation rests on the correspondence + "
                     "this executable check (see level_note)",
         assumptions=["the reference semantics Sem/FunSem.v and Sem/CoreSem.v are the intended meaning of Fun and Core "
